@@ -334,6 +334,9 @@ func partial(env Env, n ast.IsNode) (ast.IsNode, error) {
 			},
 		)
 	case ast.NodeTypeIsIn:
+		if n, done, err := partialIsInShortCircuit(env, v); done {
+			return n, err
+		}
 		return tryPartial(env,
 			[]ast.IsNode{v.Left, v.Entity},
 			func(values []types.Value) Evaler {
@@ -507,6 +510,38 @@ func partialIfThenElse(env Env, v ast.NodeTypeIfThenElse) (ast.IsNode, error) {
 		elseNode = extError(elseErr)
 	}
 	return ast.NodeTypeIfThenElse{If: ifNode, Then: residualOperand(v.Then, thenNode), Else: residualOperand(v.Else, elseNode)}, nil
+}
+
+// partialIsInShortCircuit handles the cases in which `x is T in e` must not (or not yet) evaluate e: the evaluator
+// returns false without looking at e when x is an entity of another type. done is false when both operands are to be
+// evaluated as usual.
+func partialIsInShortCircuit(env Env, v ast.NodeTypeIsIn) (n ast.IsNode, done bool, err error) {
+	left, leftErr := partial(env, v.Left)
+	switch {
+	case errors.Is(leftErr, errVariable):
+		// Unknown left operand: whether e is evaluated at all depends on the unknown, so a failure of e has to stay
+		// inside the residual expression instead of failing the whole condition now.
+		right, rightErr := partial(env, v.Entity)
+		switch {
+		case errors.Is(rightErr, errIgnore):
+			return nil, true, rightErr
+		case errors.Is(rightErr, errVariable):
+			right = v.Entity
+		case rightErr != nil:
+			right = extError(rightErr)
+		default:
+			right = residualOperand(v.Entity, right)
+		}
+		return ast.NodeTypeIsIn{NodeTypeIs: ast.NodeTypeIs{Left: v.Left, EntityType: v.EntityType}, Entity: right}, true, nil
+	case leftErr != nil:
+		return nil, true, leftErr
+	}
+	if lv, ok := left.(ast.NodeValue); ok {
+		if uid, ok := lv.Value.(types.EntityUID); ok && uid.Type != v.EntityType {
+			return ast.NodeValue{Value: types.False}, true, nil
+		}
+	}
+	return nil, false, nil
 }
 
 func partialAnd(env Env, v ast.NodeTypeAnd) (ast.IsNode, error) {
